@@ -42,22 +42,24 @@ ROUTERS = [U("Direct.next_node"), U("Leave.next_node"), U("Probabilistic.next_no
           [U("NodeRouting.next_node_for_rerouting", rc) for rc in ["Probabilistic", "Direct", "Leave", "JoinShortestQueue", "LoadBalancing", "Cycle"]]
 
 SCHEDULES = [U("Schedule.get_schedule_generator"), U("Schedule.initialise"), U("Schedule.get_next_shift"),
-             U("Slotted.get_next_slot"), U("Slotted.initialise"), U("Node.kill_server"), U("Node.add_new_servers")]
+             U("Slotted.get_next_slot"), U("Slotted.initialise"), U("Node.kill_server"), U("Node.add_new_servers"),
+             U("Node.take_servers_off_duty"), U("Node.begin_service_if_possible_change_shift"), U("Node.change_shift", "Node")]
 EXACT = [U("ExactNode.get_service_time"), U("ExactArrivalNode.inter_arrival"), U("ExactNode.increment_time"), U("ExactArrivalNode.increment_time")]
 
 PROPS = {
     "C01": dict(units=TRANSFER + ARRIVAL[:4]),
-    "C02": dict(units=[U("Simulation.find_next_active_node"), U("ArrivalNode.find_next_event_date")] + NEXT_EVENT + START +
+    "C02": dict(units=[U("Simulation.find_next_active_node"), U("ArrivalNode.find_next_event_date"), U("Node.begin_service_if_possible_change_shift")] + NEXT_EVENT + START +
                 [U("Node.release"), U("Node.renege"), U("Node.decide_class_change")] + LOOPS[:3]),
     "C03": dict(units=[U("Node.release"), U("Node.renege"), U("Node.finish_service"), U("Node.accept"), U("ArrivalNode.have_event"),
                        U("Node.begin_interrupted_individuals_service")]),
     "C04": dict(units=[U("Node.find_free_server"), U("Node.release"), U("Node.kill_server"), U("Node.add_new_servers"), U("Node.preempt"),
                        U("Node.release_blocked_individual")] + START + STATS),
     "C05": dict(units=[U("Node.find_free_server"), U("Node.choose_next_customer"), U("Node.accept"), U("Node.release_blocked_individual"),
+                       U("Node.begin_service_if_possible_change_shift"), U("Node.change_shift", "Node"),
                        U("Node.begin_service_if_possible_accept"), U("Node.begin_service_if_possible_release")]),
     "C06": dict(units=[U("Node.release"), U("Node.finish_service"), U("Node.accept"), U("Node.release_blocked_individual"),
                        U("ArrivalNode.release_individual")]),
-    "C07": dict(units=[U("Node.block_individual"), U("Node.finish_service"), U("Node.release"), U("Node.release_blocked_individual"),
+    "C07": dict(units=[U("Node.begin_service_if_possible_change_shift"), U("Node.block_individual"), U("Node.finish_service"), U("Node.release"), U("Node.release_blocked_individual"),
                        U("Node.accept"), U("Node.update_next_end_service_with_server"),
                        U("Node.update_next_end_service_without_server"), U("Node.begin_interrupted_individuals_service")]),
     "C08": dict(units=[U("FIFO"), U("LIFO"), U("SIRO"), U("Node.choose_next_customer"), U("Node.begin_service_if_possible_release"), U("Node.preempt")]),
